@@ -74,10 +74,13 @@ def _bundle_cls():
     return _Bundle
 
 
-class CtsEnv:
-    """Box / Box environment (create_mt_mrq_state needs the spaces); `cfg` is what set_context stored."""
+_ENV_CLS = None
 
-    def __new__(cls, *a, **k):
+
+def CtsEnv(ep_len=2, returns=None):
+    """Box / Box environment (create_mt_mrq_state needs the spaces); `cfg` is what set_context stored."""
+    global _ENV_CLS
+    if _ENV_CLS is None:
         import gymnasium as gym
 
         class _CtsEnv(gym.Env):
@@ -91,18 +94,21 @@ class CtsEnv:
                 self.t = 0
                 self.task = -1
 
+            def _obs(self):
+                return np.zeros(2, dtype=F32) if self.cfg is None else np.asarray(self.cfg, dtype=F32)
+
             def reset(self, *, seed=None, options=None):
                 self.t = 0
-                return (np.zeros(2, dtype=F32) if self.cfg is None else np.asarray(self.cfg, dtype=F32)), {}
+                return self._obs(), {}
 
             def step(self, action):
                 self.t += 1
                 end = self.t >= self.ep_len
                 r = float(self.returns[self.task]) if (end and self.returns is not None and self.task >= 0) else 0.0
-                obs = np.zeros(2, dtype=F32) if self.cfg is None else np.asarray(self.cfg, dtype=F32)
-                return obs, r, bool(end), False, {}
+                return self._obs(), r, bool(end), False, {}
 
-        return _CtsEnv(*a, **k)
+        _ENV_CLS = _CtsEnv
+    return _ENV_CLS(ep_len, returns)
 
 
 def set_context(env, context):
@@ -233,7 +239,10 @@ class NetPair:
         self.kinds, self.nt, self.max_norm = dict(kinds), nt, max_norm
         self.roots = {}
         self.fresh = {}
-        self.roots["a"] = build(kinds["a"], nt, max_norm, seed)
+        try:
+            self.roots["a"] = build(kinds["a"], nt, max_norm, seed)
+        except Exception as e:
+            raise Mismatch(f"constructing {kinds['a']} raised {type(e).__name__}: {str(e)[:120]}", "constructor_raised", kind=kinds["a"])
         self.fresh["a"] = self._fresh_state("a")
         for t in range(nt):
             write_row(self.mod("a"), t, arr([init_tab["a"][str(t)]])[0])
@@ -271,7 +280,7 @@ class NetPair:
 def net_project(ad: NetPair):
     for c in "ab":
         if ad.fresh[c] != {"task_id": 0, "bounded": True}:
-            raise Mismatch(f"freshly constructed {ad.kinds[c]}: {ad.fresh[c]} (model: task 0, every row within max_norm)", "constructed_state")
+            raise Mismatch(f"freshly constructed {ad.kinds[c]}: {ad.fresh[c]} (model: task 0, every row within max_norm)", "constructed_state", kind=ad.kinds[c])
     tab = {c: {str(t): [qj(v) for v in table(ad.mod(c))[t]] for t in range(ad.nt)} for c in "ab"}
     return {
         "cur": {c: int(ad.mod(c).task_id) for c in "ab"},
@@ -292,6 +301,20 @@ def _compare(real, want, what, code):
 
 
 def net_step(ad: NetPair, op, args, exp, pre, post):
+    _net_step(ad, op, args, exp)
+    if post is not None:  # name what differs (graph.cover only says "state differs")
+        got = net_project(ad)
+        c = args["c"]
+        for d in "ab":
+            who = f"{ad.kinds[d]} '{d}'" + ("" if d == c else f" (the call was on '{c}')")
+            code = "" if d == c else "other_component:"
+            if got["cur"][d] != post["cur"][d]:
+                raise Mismatch(f"after {op} {args}: task_id of {who} is {got['cur'][d]}, model {post['cur'][d]}", code + "task_id", kind=ad.kinds[d])
+            if got["tab"][d] != post["tab"][d]:
+                raise Mismatch(f"after {op} {args}: embedding table of {who} is {got['tab'][d]}, model {post['tab'][d]}", code + "table", kind=ad.kinds[d])
+
+
+def _net_step(ad: NetPair, op, args, exp):
     from flax import nnx
 
     c = args["c"]
@@ -352,6 +375,7 @@ def net_step(ad: NetPair, op, args, exp, pre, post):
         if (norm <= Fraction(ad.max_norm) ** 2) != bool(exp["bounded"]):
             raise Mismatch(f"row {row} within max_norm: {norm <= Fraction(ad.max_norm) ** 2}, model {exp['bounded']}", "row_bounded")
         # rows the output must not depend on / the row it must depend on
+        xs = {"batch": xs["batch"]}  # the batch exercises every method (model_head is batch-only)
         for t_s, indep in exp["indep"].items():
             t = int(t_s)
             r2 = nnx.clone(root)
@@ -359,13 +383,14 @@ def net_step(ad: NetPair, op, args, exp, pre, post):
             real2 = outputs(kind, r2, xs)
             if indep:
                 try:
-                    _compare(real2, real, f"{kind} with task {int(mod.task_id)} after writing row {t}", "other_row_changes_output")
+                    _compare(real, real2, f"{kind} with task {int(mod.task_id)} after writing row {t}", "other_row_changes_output")
                 except Mismatch as m:
                     raise Mismatch(m.what + f" - the output must depend on row {row} only", "other_row_changes_output")
             else:
                 alt = arr([exp["alt"][t_s]])[0]
                 for k, x in xs.items():
-                    if not np.array_equal(real2[f"task_embedding:{k}"][..., x.shape[-1] :].reshape(-1, E_DIM), np.broadcast_to(alt, (max(1, x.ndim and x.shape[0] if x.ndim == 2 else 1), E_DIM))):
+                    part = real2[f"task_embedding:{k}"][..., x.shape[-1] :]
+                    if not np.array_equal(part, np.broadcast_to(alt, part.shape)):
                         raise Mismatch(f"{kind}: after writing {alt} into row {t} (the current task's row) task_embedding still gives "
                                        f"{real2[f'task_embedding:{k}'].ravel()[:8]}", "current_row_ignored")
     else:  # pragma: no cover
@@ -381,7 +406,10 @@ class TaskSetAd:
         self.env = CtsEnv()
         with warnings.catch_warnings():
             warnings.simplefilter("ignore")
-            self.ts = DiscreteTaskSet(self.env, set_context, [list(map(float, c)) for c in self.ctx] if as_list else self.ctx, context_aware=aware)
+            try:
+                self.ts = DiscreteTaskSet(self.env, set_context, [list(map(float, c)) for c in self.ctx] if as_list else self.ctx, context_aware=aware)
+            except Exception as e:
+                raise Mismatch(f"DiscreteTaskSet(...) raised {type(e).__name__}: {str(e)[:120]}", "constructor_raised")
         self.aware = aware
         self.handles = []
 
@@ -406,6 +434,16 @@ def ts_project(ad: TaskSetAd):
 
 
 def ts_step(ad: TaskSetAd, op, args, exp, pre, post):
+    _ts_step(ad, op, args, exp)
+    if post is not None:
+        got = ts_project(ad)
+        if got["base"] != post["base"]:
+            raise Mismatch(f"after {op} {args}: the base environment is configured for task {got['base']}, model {post['base']}", "base_task")
+        if got["handles"] != post["handles"]:
+            raise Mismatch(f"after {op} {args}: handles carry contexts {got['handles']}, model {post['handles']} (-1: the base environment itself)", "handles")
+
+
+def _ts_step(ad: TaskSetAd, op, args, exp):
     if op == "GetTask":
         n0 = ad.env.n_set
         try:
@@ -496,26 +534,32 @@ def record_switches(sc, seed):
     nt, sched = sc["nt"], sc["sched"]
     ctx = np.arange(nt, dtype=F32)[:, None] * np.array([[0.5, 1.0]], dtype=F32) + np.array([[0.5, -1.0]], dtype=F32)
     env = CtsEnv(ep_len=sc.get("ep_len", 2), returns=sc["returns"])
+    events = []
+    trace = {"id": sc["id"], "cfg": {"sched": sched, "listed": dict(sc["listed"]), "nt": nt}, "init": {"buffer": 0, "encoder": 0, "target": 0},
+             "events": events, "exception": ""}
 
     def set_ctx(e, c):
         set_context(e, c)
         e.unwrapped.task = int(np.argmin(np.abs(ctx - np.asarray(c, dtype=F32)).sum(axis=1)))
 
-    with warnings.catch_warnings():
-        warnings.simplefilter("ignore")
-        ts = DiscreteTaskSet(env, set_ctx, ctx, context_aware=False)
-    state = mrq_state(nt, seed)
-    live = _bundle_cls()(state.policy_with_encoder, state.q)
-    for t in range(nt):
-        write_row(live.pwe.encoder, t, np.array(ROWS[t], dtype=F32))
-    target = nnx.clone(live)
-    rb = MultiTaskReplayBuffer(ReplayBuffer(buffer_size=4), nt)
-    comps = {"encoder": live, "target": target}
-    for c, k in sc.get("preset", {}).items():  # ids the components hold before the scheduler starts
-        comps[c].pwe.encoder.select_task(k)
-    xs = {"vec": np.array([0.5, -1.0], dtype=F32), "batch": np.array([[2.0, 0.25], [-0.5, 3.0]], dtype=F32)}
-    init = {"buffer": int(rb.selected_task), "encoder": int(live.pwe.encoder.task_id), "target": int(target.pwe.encoder.task_id)}
-    events = []
+    try:
+        with warnings.catch_warnings():
+            warnings.simplefilter("ignore")
+            ts = DiscreteTaskSet(env, set_ctx, ctx, context_aware=False)
+        state = mrq_state(nt, seed)
+        live = _bundle_cls()(state.policy_with_encoder, state.q)
+        for t in range(nt):
+            write_row(live.pwe.encoder, t, np.array(ROWS[t], dtype=F32))
+        target = nnx.clone(live)
+        rb = MultiTaskReplayBuffer(ReplayBuffer(buffer_size=4), nt)
+        comps = {"encoder": live, "target": target}
+        for c, k in sc.get("preset", {}).items():  # ids the components hold before the scheduler starts
+            comps[c].pwe.encoder.select_task(k)
+    except Exception as e:
+        trace["exception"] = f"building the learner's components raised {type(e).__name__}: {str(e)[:160]}"
+        return trace
+    xs = {"vec": np.array([0.5, -1.0], dtype=F32)}
+    trace["init"] = {"buffer": int(rb.selected_task), "encoder": int(live.pwe.encoder.task_id), "target": int(target.pwe.encoder.task_id)}
 
     def learner(env=None, *, total_timesteps, total_episodes, global_step, learning_starts=None, seed=None, progress_bar=None, logger=None,
                 replay_buffer=None, bar=None):
@@ -540,7 +584,6 @@ def record_switches(sc, seed):
         return StubResult(step)
 
     listed = [comps[c].pwe.encoder for c in ("encoder", "target") if sc["listed"][c]]
-    trace = {"id": sc["id"], "cfg": {"sched": sched, "listed": dict(sc["listed"]), "nt": nt}, "init": init, "events": events, "exception": ""}
     with warnings.catch_warnings(), contextlib.redirect_stdout(io.StringIO()):
         warnings.simplefilter("ignore")
         try:
